@@ -380,7 +380,108 @@ func (p *Prog) canonicalise(path string) {
 				bind(rn, cands[0])
 			}
 		}
+		// ---- fields regrouped into a new value-typed helper struct of the same package
+		// (`cur batch` holding what used to be direct fields): a reference field that is still
+		// missing is the field of the helper with the same name and type, or - names apart - the only
+		// unclaimed field of the helper with the identical type
+		var still [][2]string
+		for _, f := range rfs {
+			if _, ok := curNames[f[0]]; ok {
+				continue
+			}
+			bound := false
+			for v, r := range canonField {
+				if r == f[0] && p.fieldRaw(pk, tn, v.Name()) == v {
+					bound = true
+				}
+			}
+			if !bound {
+				still = append(still, f)
+			}
+		}
+		if len(still) == 0 {
+			continue
+		}
+		for _, cf := range cfs {
+			if _, isRef := refNames[cf[0]]; isRef {
+				continue
+			}
+			gv := p.fieldRaw(pk, tn, cf[0])
+			if gv == nil || gv.Embedded() {
+				continue
+			}
+			gn, ok := gv.Type().(*types.Named)
+			if !ok || gn.Obj().Pkg() != gv.Pkg() {
+				continue
+			}
+			gst, ok := gn.Underlying().(*types.Struct)
+			if !ok {
+				continue
+			}
+			if _, old := ref.Structs[pk+"."+gn.Obj().Name()]; old {
+				continue
+			}
+			claimed := map[*types.Var]bool{}
+			ftype := func(v *types.Var) string { return normType(types.TypeString(v.Type(), fullQ)) }
+			var rest [][2]string
+			for _, f := range still {
+				hit := false
+				for i := 0; i < gst.NumFields(); i++ {
+					if v := gst.Field(i); v.Name() == f[0] && ftype(v) == f[1] {
+						claimed[v] = true
+						regroup(p, v, gv, pk, tn, f[0])
+						hit = true
+					}
+				}
+				if !hit {
+					rest = append(rest, f)
+				}
+			}
+			still = nil
+			for _, f := range rest {
+				var cands []*types.Var
+				for i := 0; i < gst.NumFields(); i++ {
+					if v := gst.Field(i); !claimed[v] && ftype(v) == f[1] {
+						cands = append(cands, v)
+					}
+				}
+				same := 0
+				for _, g := range rest {
+					if g[1] == f[1] {
+						same++
+					}
+				}
+				if len(cands) == 1 && same == 1 {
+					claimed[cands[0]] = true
+					regroup(p, cands[0], gv, pk, tn, f[0])
+				} else {
+					still = append(still, f)
+				}
+			}
+		}
 	}
+}
+
+// regrouped: a field that moved from a reference struct into a value-typed helper struct held by it ->
+// the reference owner; groupField: the fields holding such helpers (their address stands for the owner).
+var (
+	regrouped  = map[*types.Var]*types.Named{}
+	groupField = map[*types.Var]bool{}
+)
+
+func regroup(p *Prog, v, holder *types.Var, pk, tn, refField string) {
+	n := p.Named(pk, tn)
+	if n == nil {
+		return
+	}
+	owner := normType(types.TypeString(n, shortQ))
+	if v.Name() != refField {
+		canonField[v] = refField
+	}
+	regrouped[v] = n
+	groupField[holder] = true
+	promotedOwner[v] = owner
+	canonNotes = append(canonNotes, fmt.Sprintf("field %s.%s is taken to have moved into the helper struct held by field %s (now %s)", owner, refField, holder.Name(), v.Name()))
 }
 
 // shapeTypes: the field types of a shape (they are joined by ';'); names are not part of a shape.
